@@ -39,12 +39,14 @@ class JSONFormatter(Formatter):
         self.current_feature = None
         self.current_feature_data = None
         self.current_scenario = None
+        self.current_scenario_element = None
         self._step_index = 0
 
     def reset(self):
         self.current_feature = None
         self.current_feature_data = None
         self.current_scenario = None
+        self.current_scenario_element = None
         self._step_index = 0
 
     # -- FORMATTER API:
@@ -96,6 +98,7 @@ class JSONFormatter(Formatter):
         })
         if scenario.description:
             element["description"] = scenario.description
+        self.current_scenario_element = element
         self._step_index = 0
 
     @classmethod
@@ -225,8 +228,9 @@ class JSONFormatter(Formatter):
 
     def finish_current_scenario(self):
         if self.current_scenario:
+            # -- NOTE: The last feature-element may be a rule.background now.
             status_name = self.current_scenario.status.name
-            self.current_feature_element["status"] = status_name
+            self.current_scenario_element["status"] = status_name
 
     # -- JSON-WRITER:
     def write_json_header(self):
